@@ -66,7 +66,7 @@ def check_split(ctx, case):
 
 async def check_case(ctx, case):
     parts, sp, conds, s = case["parts"], case["spellings"], case["conds"], case["s"]
-    rng = ctx.rng
+    rng = ctx.case_rng(case)
     ctx.set_case("ahb", case)
     ctx.count("ahb_expressions")
     ctx.count(f"form:{'bare' if len(parts) == 1 and parts[0][1] is None else ('prefix' if parts[0][0] in 'XOU' else 'modal')}")
